@@ -86,7 +86,7 @@ fn render_cfg_flip(fl: &Flat, calls: &[Vec<[usize; 3]>], ctx: &Context, discard:
 
 /// Number of triangles the public clipper yields for triangle t, and whether
 /// any piece is (nearly) degenerate on screen.
-fn clip_pieces(fl: &Flat, t: &[usize; 3]) -> (usize, bool) {
+fn clip_pieces(fl: &Flat, t: &[usize; 3]) -> (usize, bool, usize) {
     let tri = Tri(std::array::from_fn(|i| ClipVert::new(vertex(ClipVec::from(fl.sc.verts[t[i]].0), fl.sc.verts[t[i]].1))));
     let out = catch(|| {
         let mut out = vec![];
@@ -95,7 +95,10 @@ fn clip_pieces(fl: &Flat, t: &[usize; 3]) -> (usize, bool) {
     })
     .unwrap_or_default();
     let mut degenerate = false;
+    let mut n_deg = 0usize;
     for Tri(vs) in &out {
+        let before = degenerate;
+        degenerate = false;
         let s: Vec<(f64, f64)> = vs
             .iter()
             .map(|v| {
@@ -119,8 +122,12 @@ fn clip_pieces(fl: &Flat, t: &[usize; 3]) -> (usize, bool) {
         if !(a > 0.02 * base) {
             degenerate = true;
         }
+        if degenerate {
+            n_deg += 1;
+        }
+        degenerate |= before;
     }
-    (out.len(), degenerate)
+    (out.len(), degenerate, n_deg)
 }
 
 // ------------------------------------------------------------------ masks
@@ -185,7 +192,7 @@ fn masks_case(rng: &mut Rng, rep: &mut Report, idx: u64) {
             rep.count("calls.through_batch_with_an_empty_face_list");
         }
     }
-    let pieces: Vec<(usize, bool)> = fl.sc.tris.iter().map(|t| clip_pieces(&fl, t)).collect();
+    let pieces: Vec<(usize, bool, usize)> = fl.sc.tris.iter().map(|t| clip_pieces(&fl, t)).collect();
     // Face culling crossed with the masks: one cull mode per scene. A culled
     // triangle contributes nothing at all (no fragments, no writes, not
     // counted in prims.o); needs a well-defined winding for every triangle.
@@ -408,8 +415,13 @@ fn masks_case(rng: &mut Rng, rep: &mut Report, idx: u64) {
                         if vi != exp_vi {
                             bad.push(format!("verts.i={vi} expected {exp_vi}"));
                         }
-                        if po != exp_po {
-                            bad.push(format!("prims.o={po} expected {exp_po} (triangles surviving clipping)"));
+                        // a clip piece that is (nearly) degenerate on screen may or may
+                        // not count as surviving: a renderer may drop zero-area pieces
+                        let deg_po: usize = pieces.iter().zip(&culled).filter(|(_, c)| !**c).map(|(p, _)| p.2).sum();
+                        if po > exp_po || po + deg_po < exp_po {
+                            bad.push(format!("prims.o={po} expected {exp_po} (triangles surviving clipping{})", if deg_po > 0 { format!(", of which {deg_po} (nearly) degenerate on screen may be dropped") } else { String::new() }));
+                        } else if po != exp_po {
+                            rep.count("stats.prims_o_short_by_degenerate_pieces(accepted)");
                         }
                         if vo != 3 * po {
                             bad.push(format!("verts.o={vo} expected 3*prims.o={}", 3 * po));
@@ -506,7 +518,7 @@ fn cull_case(rng: &mut Rng, rep: &mut Report) {
     let mask: Vec<bool> = m1.iter().zip(&m2).map(|(a, b)| *a || *b).collect();
     // clip pieces that are (nearly) degenerate on screen have no defined
     // on-screen winding: they may survive culling without drawing anything
-    let (_, degenerate_piece) = clip_pieces(&fl, &t);
+    let (_, degenerate_piece, _) = clip_pieces(&fl, &t);
     let same_outside_band = |a: &Outcome, b: &Outcome| (0..npx).all(|p| mask[p] || (a.col[p] == b.col[p] && a.z[p] == b.z[p]));
     // order t: back-facing iff `back`; reversed order: the opposite
     for (o, is_back, name) in [(0usize, back, "given order"), (3, !back, "reversed order")] {
@@ -574,7 +586,7 @@ fn cull_stats_case(rng: &mut Rng, rep: &mut Report) {
         h.f32s(p);
     }
     rep.case(h.get() ^ 0xc511, true);
-    let pieces: Vec<(usize, bool)> = fl.sc.tris.iter().map(|t| clip_pieces(&fl, t)).collect();
+    let pieces: Vec<(usize, bool, usize)> = fl.sc.tris.iter().map(|t| clip_pieces(&fl, t)).collect();
     let orient: Vec<Option<bool>> = fl.sc.tris.iter().map(|t| orientation(&fl, t)).collect();
     if pieces.iter().any(|p| p.1) || orient.iter().any(|o| o.is_none()) {
         rep.skip("cull_stats.degenerate_piece_or_edge_on");
